@@ -1198,7 +1198,7 @@ func main() {
 	}
 
 	// 2. sequential histories
-	nseq := 220
+	nseq := 170
 	if thorough {
 		nseq = 2500
 	}
@@ -1258,7 +1258,7 @@ func main() {
 			}
 		}
 	}
-	n3 := 110
+	n3 := 85
 	if thorough {
 		n3 = 1500
 	}
